@@ -23,6 +23,10 @@ for d in sorted(glob.glob("/verif/benign/*/")):
     try:
         rc, o = sh(f"git apply {d}refactor.diff", cwd="/repo")
         if rc != 0:
+            # written against an earlier commit of /repo (before a later `fix:`): merge
+            sh("git reset -q --hard HEAD", cwd="/repo")
+            rc, o = sh(f"git apply --3way {d}refactor.diff", cwd="/repo")
+        if rc != 0:
             print(f"{name}: diff does not apply: {o[:200]}"); alarms.append(name); continue
         t0 = time.time()
         rc, o = sh(f"./check {prop} --tier quick", cwd="/verif")
@@ -32,7 +36,7 @@ for d in sorted(glob.glob("/verif/benign/*/")):
             alarms.append(name)
             print("\n".join(o.splitlines()[-8:])[:2000])
     finally:
-        sh("git checkout -- . && git clean -fdq", cwd="/repo")
+        sh("git reset -q --hard HEAD && git clean -fdq", cwd="/repo")
         sh("rm -f /verif/replays/*.json")
 print("alarms:", alarms)
 sys.exit(1 if alarms else 0)
